@@ -401,6 +401,7 @@ func init() {
 		checkWithLocalVariable(r, prog, "c06")
 		r.importing = "C18"
 		checkForwarding(r, prog, a, "c18")
+		checkOptionConstructors(r, prog, "c18") // every way of handing state to an evaluator is one of the known options
 		r.importing = ""
 		r.Technique = "ownership/effect census over the VTA call graph: every Store, map update, append, copy, in-place sort, reflect mutator, goroutine start and foreign call in the functions reachable from Evaluate/Execute (and from the constructors) is classified by the provenance of the memory it can write (local allocation / per-call object / shared parameter / package variable)"
 		r.Explain = "The library starts no goroutines and uses no synchronisation, so it is race-free iff no call writes memory another call can reach. Decides: on the evaluation path every write goes to a local allocation, to memory made in the same function, or through a pointer to a per-call object (the options struct of getOpts), and every append extends a slice that is nil-based or rooted at a fresh copy — never the shared evaluator, filter, syntax tree, datum or a package variable; on the creation path writes go to the parser object allocated by newParser, to the tree under construction (parser actions, plus the regexp memo written before the tree is published) and to locals; parser and options objects are allocated only per call; no package variable is assigned outside init; foreign callees are on the documented read-only / concurrency-safe list; the syntax tree is never modified after creation. Results equal the sequential ones because no state is carried (C13). NOT decided: races inside dependencies or user hooks; a caller mutating the datum concurrently."
@@ -414,6 +415,9 @@ func init() {
 		checkEffects(r, prog, a, "c13", true)
 		checkASTIntegrity(r, prog, a, "c13")
 		checkExpressionAccessor(r, prog, a, "c13")
+		r.importing = "C08"
+		checkSingleGateway(r, prog, a, "c08") // the datum is reached through Pointer.Get only (never Pointer.Set / other writers)
+		r.importing = ""
 		r.importing = "C17"
 		checkFilter(r, prog, a, "c17")
 		r.importing = ""
